@@ -84,11 +84,12 @@ fn ref_anchored(fh: &[u8], h: &[u8], wildcard: bool, maxp: usize) -> bool {
 }
 
 fn anchor_kernel<const FN: usize, const HN: usize>() {
-    let fb: [u8; FN] = crate::verif_shim::any_bytes::<FN>();
-    let fl: usize = kani::any();
-    let hb: [u8; HN] = crate::verif_shim::any_bytes::<HN>();
-    let hl: usize = kani::any();
-    let w: bool = kani::any();
+    let mut dr = crate::verif_shim::Draw::new();
+    let fb: [u8; FN] = dr.bytes::<FN>();
+    let fl: usize = dr.usize();
+    let hb: [u8; HN] = dr.bytes::<HN>();
+    let hl: usize = dr.usize();
+    let w: bool = dr.bool();
     kani::assume(fl <= FN);
     let mut i = 0;
     while i < FN {
@@ -139,14 +140,15 @@ fn lower(c: u8) -> u8 {
 /// plain / left / right / left+right arms against substring / prefix / suffix / equality.
 /// The rule pattern is stored lower-cased by the parser unless MATCH_CASE; the request carries both spellings.
 fn plain_kernel<const FN: usize, const UN: usize>() {
-    let fb: [u8; FN] = crate::verif_shim::any_bytes::<FN>();
-    let fl: usize = kani::any();
-    let ub: [u8; UN] = crate::verif_shim::any_bytes::<UN>();
-    let ul: usize = kani::any();
+    let mut dr = crate::verif_shim::Draw::new();
+    let fb: [u8; FN] = dr.bytes::<FN>();
+    let fl: usize = dr.usize();
+    let ub: [u8; UN] = dr.bytes::<UN>();
+    let ul: usize = dr.usize();
     let f = sym_ascii(&fb, fl);
     let u = sym_ascii(&ub, ul);
     kani::assume(fl >= 1);
-    let (la, ra, mc): (bool, bool, bool) = (kani::any(), kani::any(), kani::any());
+    let (la, ra, mc): (bool, bool, bool) = (dr.bool(), dr.bool(), dr.bool());
     let mut mask = NetworkFilterMask::DEFAULT_OPTIONS;
     if la {
         mask |= NetworkFilterMask::IS_LEFT_ANCHOR;
@@ -207,14 +209,15 @@ std_harness!(8, fn c02_plain_t() { plain_kernel::<3, 5>(); });
 /// matches the URL text directly after that occurrence (prefix for la, equal-to-end for la+ra).
 /// Known role: the implementation cuts the URL after the FIRST occurrence of fh in the whole URL text.
 fn host_kind<const HN: usize, const RN: usize>(la: bool, ra: bool) {
-    let hb: [u8; HN] = crate::verif_shim::any_bytes::<HN>();
-    let hl: usize = kani::any();
-    let rb: [u8; RN] = crate::verif_shim::any_bytes::<RN>();
-    let rl: usize = kani::any();
-    let fb: [u8; 2] = crate::verif_shim::any_bytes::<2>();
-    let fl: usize = kani::any();
-    let tb: [u8; 2] = crate::verif_shim::any_bytes::<2>();
-    let tl: usize = kani::any();
+    let mut dr = crate::verif_shim::Draw::new();
+    let hb: [u8; HN] = dr.bytes::<HN>();
+    let hl: usize = dr.usize();
+    let rb: [u8; RN] = dr.bytes::<RN>();
+    let rl: usize = dr.usize();
+    let fb: [u8; 2] = dr.bytes::<2>();
+    let fl: usize = dr.usize();
+    let tb: [u8; 2] = dr.bytes::<2>();
+    let tl: usize = dr.usize();
     kani::assume(hl >= 1 && hl <= HN);
     let mut i = 0;
     while i < HN {
@@ -365,24 +368,25 @@ fn union3(v: &[u64; 3], n: usize) -> u64 {
 
 /// real check_options (+ check_cpt_allowed, From<&RequestType>) against the meaning of the mask bits
 fn opts_kernel(max_list: usize, max_src: usize) {
-    let m: u32 = kani::any();
+    let mut dr = crate::verif_shim::Draw::new();
+    let m: u32 = dr.u32();
     let mask = NetworkFilterMask::from_bits_retain(m);
-    let t: u8 = kani::any();
+    let t: u8 = dr.u8();
     kani::assume(t < 17);
     let (rt, bit) = type_bit(t);
-    let inc: [u64; 3] = crate::verif_shim::any_u64s::<3>();
-    let ni: usize = kani::any();
+    let inc: [u64; 3] = dr.u64s::<3>();
+    let ni: usize = dr.usize();
     kani::assume(ni <= max_list && (ni < 2 || inc[0] < inc[1]) && (ni < 3 || inc[1] < inc[2]));
-    let exc: [u64; 3] = crate::verif_shim::any_u64s::<3>();
-    let ne: usize = kani::any();
+    let exc: [u64; 3] = dr.u64s::<3>();
+    let ne: usize = dr.usize();
     kani::assume(ne <= max_list && (ne < 2 || exc[0] < exc[1]) && (ne < 3 || exc[1] < exc[2]));
-    let src: [u64; 3] = crate::verif_shim::any_u64s::<3>();
-    let ns: usize = kani::any();
+    let src: [u64; 3] = dr.u64s::<3>();
+    let ns: usize = dr.usize();
     kani::assume(ns <= max_src);
-    let has_src: bool = kani::any();
-    let has_iu: bool = kani::any();
-    let has_eu: bool = kani::any();
-    let (http, https, tp): (bool, bool, bool) = (kani::any(), kani::any(), kani::any());
+    let has_src: bool = dr.bool();
+    let has_iu: bool = dr.bool();
+    let has_eu: bool = dr.bool();
+    let (http, https, tp): (bool, bool, bool) = (dr.bool(), dr.bool(), dr.bool());
     kani::assume(!(http && https));
     let incv = to_vec(&inc, ni);
     let excv = to_vec(&exc, ne);
@@ -451,7 +455,8 @@ fn c03_opts_t() {
 /// masks, every Option field present or absent independently of the mask. Hostname absent, pattern empty or a
 /// fixed literal, a fixed well-formed request: check_pattern and check_options must return.
 std_harness!(6, fn c10_rule_a() {
-    let m: u32 = kani::any();
+    let mut dr = crate::verif_shim::Draw::new();
+    let m: u32 = dr.u32();
     // regex-kind arms with a pattern evaluate the regex crate (cut); with an empty pattern they return early
     let mask = NetworkFilterMask::from_bits_retain(m);
     let req = mk_req("s://a/", "a");
